@@ -149,7 +149,13 @@ fn gen_ctor(rng: &mut Rng) -> Value {
     // probe page for the Ok case: any page whose level-4 index is not the recursive one
     let p4 = (r + rng.range(1, 511)) % 512;
     let probe = json!({"idx": [p4, rng.below(512), rng.below(512), rng.below(512)], "depth": rng.range(0, 4), "frame": gen_frame(rng)});
-    json!({"op": "ctor", "idx": idx, "mapped": mapped, "slot": slot, "cr3": cr3, "probe": probe})
+    let mut s = json!({"op": "ctor", "idx": idx, "mapped": mapped, "slot": slot, "cr3": cr3, "probe": probe});
+    if rng.chance(20) {
+        // the address space is switched (from this root) in the same function, right before the
+        // constructor is called
+        s["switch_from"] = json!(if rng.chance(30) { slot & ADDR } else { other_frame(rng, f) } | (rng.below(4) << 3));
+    }
+    s
 }
 
 fn gen_arith(rng: &mut Rng) -> Value {
@@ -231,9 +237,17 @@ enum Probe {
     Other,
 }
 
-/// the call into the crate: constructor, then (if it succeeded) the two uses of the mapper
+/// the call into the crate: (optionally an address-space switch first,) constructor, then (if it
+/// succeeded) the two uses of the mapper
 #[inline(never)]
-fn call_new(addr: u64, probe: Option<u64>) -> (Ctor, Option<(u64, Probe)>) {
+fn call_new(addr: u64, probe: Option<u64>, switch_to: Option<u64>) -> (Ctor, Option<(u64, Probe)>) {
+    if let Some(new) = switch_to {
+        use x86_64::registers::control::Cr3;
+        use x86_64::structures::paging::PhysFrame;
+        let (old, _) = Cr3::read_raw();
+        core::hint::black_box(old);
+        unsafe { Cr3::write_raw(PhysFrame::containing_address(x86_64::PhysAddr::new(new & ADDR)), (new & 0xfff) as u16) };
+    }
     let table: &mut PageTable = unsafe { &mut *(core::hint::black_box(addr) as *mut PageTable) };
     match RecursivePageTable::new(table) {
         Err(InvalidPageTable::NotRecursive) => (Ctor::NotRecursive, None),
@@ -338,8 +352,9 @@ pub fn run(rp: &Replay, st: &mut Stats) -> Option<Violation> {
                         probe_addr = Some(compose(pidx[0], pidx[1], pidx[2], pidx[3]));
                     }
                 }
-                world().cpu.cr3 = cr3;
-                let res = sut_call("RecursivePageTable::new", || call_new(addr, probe_addr));
+                let switch_from = s["switch_from"].as_u64().map(|x| x & (ADDR | 0x18));
+                world().cpu.cr3 = switch_from.unwrap_or(cr3);
+                let res = sut_call("RecursivePageTable::new", || call_new(addr, probe_addr, switch_from.map(|_| cr3)));
                 st.calls += 1;
                 let trace = std::mem::take(&mut world().cpu.trace);
                 drop(maps);
@@ -348,11 +363,22 @@ pub fn run(rp: &Replay, st: &mut Stats) -> Option<Violation> {
                     Err(m) => return Some(viol(P, "panic", i, format!("RecursivePageTable::new on a {form} panicked: {m}"))),
                     Ok(x) => x,
                 };
+                let trace: Vec<Ev> = match switch_from {
+                    Some(old) => {
+                        if trace.len() < 2 || trace[0] != (Ev::ReadCr { cr: 3, val: old }) || trace[1] != (Ev::WriteCr { cr: 3, val: cr3 }) {
+                            return Some(viol(&["C16", "C20"], "switch-trace", i, format!("read of CR3 ({old:#x}) and switch to {cr3:#x} executed {trace:x?}")));
+                        }
+                        st.count("ctor_after_switch");
+                        trace[2..].to_vec()
+                    }
+                    None => trace,
+                };
                 if let Some(bad) = trace.iter().find(|e| !matches!(e, Ev::ReadCr { cr: 3, .. })) {
                     return Some(viol(P, "ctor-side-effect", i, format!("RecursivePageTable::new executed {bad:x?}; only reads of CR3 are expected")));
                 }
                 if got != expected {
-                    return Some(viol(P, "ctor-result", i, format!("{form}, slot {} = {slot:#x}, CR3 = {cr3:#x}: expected {expected:?}, got {got:?}", idx[0])));
+                    let sw = switch_from.map(|o| format!(" (switched from {o:#x} in the same function)")).unwrap_or_default();
+                    return Some(viol(P, "ctor-result", i, format!("{form}, slot {} = {slot:#x}, CR3 = {cr3:#x}{sw}: expected {expected:?}, got {got:?}", idx[0])));
                 }
                 match got {
                     Ctor::NotRecursive => st.count(if mapped { "not_recursive_backed_table" } else { "not_recursive_unbacked_address" }),
